@@ -408,7 +408,12 @@ def run(chk):
     chk.cov["rule"] = ("op files new/upd/updz/str/dig/len/reset per algorithm: every message length 0..3B+1 (B = block size) with random content "
                        "(random, all-zero, all-ones, 0x80-led) and random chunkings biased to block and padding boundaries, empty updates, "
                        "too-small digest buffers, repeated reads, updates after a read, reset; published vectors; random long messages up to 1 MiB; "
-                       "thorough: one update of 2^32+5 bytes vs the same bytes in smaller updates. Every op file is judged three ways: "
+                       "entry points and arguments (props/c11api.py): four handle slots with several live objects interleaved, every integer type code "
+                       "(newt: valid, invalid), get_type, free / re-create, NULL data / NULL buffer / NULL length / NULL hash, unaligned input (updo1..7), "
+                       "too-small buffers after the read, output-buffer canary, random histories over all ops, every history of at most 3 (thorough 4) ops over "
+                       "{1, B-1, B bytes, reset, str, dig, too-small dig} for md5/sha1/sha256/sha512/sha3-256/gost, objects used by 2..8 threads at once (par); "
+                       "messages of 2^29+k bytes (len_low >> 29 non-zero; then reset) against hashlib on an -O2 build; "
+                       "thorough: one update of 2^32+5 bytes vs the same bytes in smaller updates, 2^32-2^29+k bytes, sha512/sha384 single updates >= 2^32. Every op file is judged three ways: "
                        "implementation vs model, vs the Lean one-shot spec, vs Python hashlib. Distinct by op-file hash; non-trivial = more than one op")
     chk.cov["exhaustive"] = False
     chk.assumptions += ["little-endian platform (PLIBSYS_IS_BIGENDIAN undefined; re-extracted on every run)",
